@@ -223,17 +223,17 @@ def read_lines(path):
         return f.readlines()
 
 
-def run_vectors(module, cfg, tag, expected, timeout=7200):
+def run_vectors(module, cfg, tag, expected, timeout=7200, workers=16, extra=()):
     """TLC run that emits one vector per transition; `expected(stats)` is the number of lines that must have been emitted.
     A torn line (16 workers printing) is a machinery hiccup: run once more with one worker before giving up."""
-    stats = run_tlc(module, cfg, tag=tag, timeout=timeout)
+    stats = run_tlc(module, cfg, tag=tag, timeout=timeout, workers=workers, extra=extra)
     require_ok(stats)
     if stats["lines"] == expected(stats):
         return stats
     for f in (stats["lines_path"], os.path.join(CACHE, stats["key"] + ".json")):
         if os.path.exists(f):
             os.remove(f)
-    stats = run_tlc(module, cfg, tag=tag + "-w1", timeout=timeout, workers=1, use_cache=False)
+    stats = run_tlc(module, cfg, tag=tag + "-w1", timeout=timeout, workers=1, use_cache=False, extra=extra)
     require_ok(stats)
     if stats["lines"] != expected(stats):
         raise MachineryError("%s: %d vectors emitted for %d transitions" % (tag, stats["lines"], expected(stats)))
